@@ -7,6 +7,7 @@ import Driver.Proto
 import Lace.Spec.ISA
 import Lace.Model.VM
 import Driver.RunH
+import Driver.Edit
 open Lace Lace.Driver
 
 /-- `X02 stackOn minimal instr <machine> inp-hex`
@@ -31,6 +32,7 @@ def handle (line : String) : String :=
   match line.trimAscii.toString.splitOn " " with
   | "X02" :: rest => handleX02 rest
   | "X03" :: rest => handleX03 rest
+  | "K20" :: rest => Lace.Driver.Edit.handleK20 rest
   | _ => "bad-request"
 
 partial def loop (h : IO.FS.Stream) (out : IO.FS.Stream) : IO Unit := do
